@@ -20,19 +20,25 @@ TECHNIQUE = ("Coq proof (index range construction + prolly range scan = declarat
              "ranges driven through the real range builder and map iterator + differential run of generated SELECTs against go-mysql-server's "
              "in-memory engine, with the declarative answer recomputed in Coq from the data")
 LEVEL_TEXT = ("Proof (P): for every key list sorted in tuple order and every index range (per column: lower/upper cut among BelowNull, AboveNull, "
-              "Below k, Above k, AboveAll) the model of prollyRangesFromSqlRanges + Map.IterRange (start/stop search or key-range path, Matches "
-              "post-filter only when the range is not contiguous) returns exactly the keys lying between the cuts, in order, and a pruned range "
-              "contains no key (ranges_sound_complete); the search predicates are monotone on sorted keys (above_start_monotone, below_stop_antitone); "
-              "for all key-sorted inputs with duplicates and NULL keys the merge join is a permutation of, and the lookup join equal to, the "
-              "nested-loop join, inner and left outer (merge_join_spec, lookup_join_spec); the COUNT fast path equals the declarative count "
-              "(count_fast_path_spec). Whole queries (planning, expression evaluation, ORDER BY, AS OF) are covered differentially: every generated "
-              "SELECT must return the rows of the reference engine and the rows computed declaratively in Coq from the data.")
+              "Below k, Above k, AboveAll) the model of pruneEmptyRanges + prollyRangesFromSqlRanges + Map.IterRange returns exactly the keys lying "
+              "between the cuts, in order, and a pruned range contains no key (ranges_sound_complete; the start/stop searches are well defined because "
+              "aboveStart/belowStop are monotone on sorted keys: above_start_monotone, below_stop_antitone); for all key-sorted inputs with duplicate "
+              "and NULL keys the lookup join equals the nested-loop join, inner and left outer (lookup_join_spec), the merge join is a permutation "
+              "of it for inner joins (merge_join_inner_spec) and for left joins with at most one NULL left key (merge_join_left_spec_partial; the "
+              "unrestricted statement is refuted by merge_join_left_refuted, a defect of the real iterator reproduced by the model); the COUNT "
+              "fast path equals the declarative count on keyed tables (count_fast_path_spec; refuted for keyless tables, "
+              "count_fast_path_keyless_refuted). Whole queries (planning, expression evaluation, ORDER BY, AS OF) are covered differentially: every "
+              "generated SELECT must return the rows of the reference engine and the rows computed declaratively in Coq from the data.")
 LEVEL_NOTE = ("Partial: the theorems cover the key-value executors and range construction over INT columns; the SQL analyzer, type coercion, other "
               "column types and collations rest on the differential part. Trusted: Coq kernel, Go harness (it also runs the reference engine and "
-              "reports agreement as a boolean), Python glue. The merge join model is written by stages (compare / fill buffer / match group) rather "
-              "than as the iterator's explicit state machine; its output order is the iterator's. sort.Search is modelled as 'first index where the "
-              "predicate holds', justified by the monotonicity theorems.")
-THEOREMS = ["ranges_sound_complete", "above_start_monotone", "below_stop_antitone", "merge_join_spec", "lookup_join_spec", "count_fast_path_spec"]
+              "reports agreement as a boolean), Python glue. The merge join model is written by stages (compare / fill buffer / match group, with "
+              "the LEFT JOIN re-entry that refills the lookahead) rather than as the iterator's explicit state machine; its output is compared with "
+              "dolt's rows on every generated join. sort.Search is modelled as 'first index where the predicate holds', justified by the "
+              "monotonicity theorems. Two open findings (known_findings.json): LEFT merge join loses right rows after a group of NULL left keys; "
+              "COUNT(col) on a keyless table tests the wrong tuple field.")
+THEOREMS = ["ranges_sound_complete", "above_start_monotone", "below_stop_antitone", "merge_join_spec", "merge_join_inner_spec",
+            "merge_join_left_spec_partial", "lookup_join_spec", "count_fast_path_spec"]
+REFUTED = ["merge_join_left_refuted", "count_fast_path_keyless_refuted"]
 RULE = ("tables t(id pk, a, b, c; indexes (a), (a,b)), u((x,y) pk, z; index (z)), keyless k(a,b; index (a)) with 0-40 rows (joins: <= 12) of small "
         "integers, int32 extremes and NULLs, duplicates in indexed columns; optional commit followed by deletes/updates/inserts; explicit ranges over "
         "every index (1-2 columns, all cut kinds, empty and inverted ranges included) and SELECTs: filters from < <= = >= > <> BETWEEN IN IS [NOT] NULL "
@@ -373,7 +379,12 @@ def fixed_cases():
     qs = [j("t", "u", 1, 0, M, False), j("t", "u", 1, 0, M, True), j("t", "u", 1, 0, L, False), j("t", "u", 1, 0, L, True),
           j("t", "u", 2, 2, M, True), j("t", "u", 2, 2, L, True), j("u", "t", 2, 1, M, True), j("t", "t", 1, 2, M, False, True),
           j("t", "u", 1, 0, L, True, True)]
-    return [build(tb, True, later, cur, ranges, qs)]
+    # witnesses of the two refuted statements (merge_join_left_refuted, count_fast_path_keyless_refuted), replayed on every run
+    wt = {"t": [[1, None, 0, 0], [2, 0, 0, 0]], "u": [[1, 1, None], [1, 2, None], [1, 3, 0]], "k": [[None, 1]]}
+    wq = [j("u", "t", 2, 1, M, True), j("u", "t", 2, 1, L, True), j("u", "t", 2, 1, M, False),
+          {"kind": "count", "tbl": "k", "col": 0, "snap": False, "ord": False, "q": "select count(a) from k", "rq": "select count(a) from k", "rdb": "cur"},
+          {"kind": "count", "tbl": "k", "col": None, "snap": False, "ord": False, "q": "select count(*) from k", "rq": "select count(*) from k", "rdb": "cur"}]
+    return [build(tb, True, later, cur, ranges, qs), build(wt, False, [], copy.deepcopy(wt), [], wq)]
 
 
 def gen_cases(rng, tier):
@@ -568,9 +579,107 @@ def search_cases(rng):
     return [gen_one(rng, i % 2 == 0) for i in range(30)]
 
 
+# ---- known findings --------------------------------------------------------------------
+# The declarative answers are recomputed here only to decide WHICH queries of a failing case fail, so that a case is
+# attributed to a known finding only when every failing query is an instance of it (the verdict itself comes from Coq).
+def py_eval(p, r):
+    k = p[0]
+    if k == "and":
+        a, b = py_eval(p[1], r), py_eval(p[2], r)
+        return False if (a is False or b is False) else (True if (a is True and b is True) else None)
+    if k == "or":
+        a, b = py_eval(p[1], r), py_eval(p[2], r)
+        return True if (a is True or b is True) else (False if (a is False and b is False) else None)
+    if k == "not":
+        a = py_eval(p[1], r)
+        return None if a is None else (not a)
+    v = r[p[1]]
+    if k == "isnull":
+        return v is None
+    if k == "notnull":
+        return v is not None
+    if v is None:
+        return None
+    if k == "cmp":
+        return {"<": v < p[3], "<=": v <= p[3], "=": v == p[3], ">=": v >= p[3], ">": v > p[3], "<>": v != p[3]}[p[2]]
+    if k == "between":
+        return p[2] <= v <= p[3]
+    return v in p[2]
+
+
+def py_expected(case, q):
+    tabs = case["tables"] if q["snap"] else case["cur"]
+    if q["kind"] == "sel":
+        return [list(r) for r in tabs[q["tbl"]] if py_eval(q["p"], r) is True]
+    if q["kind"] == "count":
+        rows = tabs[q["tbl"]]
+        return [[len(rows) if q["col"] is None else sum(1 for r in rows if r[q["col"]] is not None)]]
+    out = []
+    nr = len(TABLES[q["rt"]][1])
+    for l in tabs[q["lt"]]:
+        ms = [r for r in tabs[q["rt"]] if l[q["lc"]] is not None and l[q["lc"]] == r[q["rc"]]]
+        if ms:
+            out += [list(l) + list(r) for r in ms]
+        elif q["left"]:
+            out.append(list(l) + [None] * nr)
+    return out
+
+
+def _canon(rows, ordered):
+    rows = [tuple(r) for r in rows]
+    return rows if ordered else sorted(rows, key=lambda r: tuple((0, 0) if v is None else (1, v) for v in r))
+
+
+def py_sat(cuts, key):
+    for (lo, hi), v in zip(cuts, key):
+        below = {"bn": True, "an": v is not None, "aa": False}.get(lo[0])
+        if below is None:
+            below = v is not None and (lo[1] <= v if lo[0] == "b" else lo[1] < v)
+        above = {"aa": True, "bn": False, "an": v is None}.get(hi[0])
+        if above is None:
+            above = v is None or (v < hi[1] if hi[0] == "b" else v <= hi[1])
+        if not (below and above):
+            return False
+    return True
+
+
+def failing_queries(case, o):
+    bad = []
+    for q, qo in zip(case["qs"], o["queries"]):
+        ok = (not qo["err"]) and qo["ref_eq"] and not qo["ref_err"] and \
+            _canon(qo["rows"], q["ord"]) == _canon(py_expected(case, q), q["ord"])
+        if not ok:
+            bad.append((q, qo))
+    return bad
+
+
+KEY_COUNT = "kvexec:count-col-keyless-wrong-field"
+KEY_MERGE = "kvexec:left-merge-join-refills-lookahead-after-null-keys"
+
+
+def category(case, q, qo):
+    if q["kind"] == "count" and q["tbl"] == "k" and q["col"] is not None and not qo["err"]:
+        return KEY_COUNT
+    if q["kind"] == "join" and q["left"] and qo["plan"] == "merge" and not qo["err"]:
+        tabs = case["tables"] if q["snap"] else case["cur"]
+        if sum(1 for r in tabs[q["lt"]] if r[q["lc"]] is None) >= 2:
+            return KEY_MERGE
+    return None
+
+
 def match_known(finding, case, out):
-    k = finding.get("key", "")
     o = out.get("obs") if out else None
-    if not o:
+    if not o or o.get("setup_err") or len(o["queries"]) != len(case["qs"]) or len(o["ranges"]) != len(case["ranges"]):
         return False
-    return False
+    for rc, ro in zip(case["ranges"], o["ranges"]):
+        if ro["err"] or ro["n"] not in (0, 1):
+            return False
+        if [tuple(k) for k in ro["visit"]] != [tuple(k) for k in ro["all"] if py_sat(rc["cuts"], k)]:
+            return False
+        pos, _ = INDEXES[(rc["t"], rc["ix"])]
+        want = sorted((tuple(r[p] for p in pos) for r in case["cur"][rc["t"]]), key=lambda r: tuple((0, 0) if v is None else (1, v) for v in r))
+        if [tuple(k) for k in ro["all"]] != want:
+            return False
+    bad = failing_queries(case, o)
+    cats = [category(case, q, qo) for q, qo in bad]
+    return bool(bad) and all(c is not None for c in cats) and finding.get("key") in cats
